@@ -68,7 +68,8 @@ def run_case(exe, base, idx, cfg, chunks, ending, extras):
     vt = ["BEGIN:VCALENDAR", "VERSION:2.0", "BEGIN:VTODO", "UID:x%d" % idx,
           # `exec`: the job process itself (not an intermediate shell) exits or is killed
           "SUMMARY:exec python3 %s %s" % (JOB, " ".join(args)),
-          "X-ECHS-SETUID:%d" % os.getuid(), "X-ECHS-SETGID:%d" % os.getgid(), "X-ECHS-SHELL:/bin/sh", "LOCATION:%s" % d,
+          "X-ECHS-SETUID:%d" % os.getuid(), "X-ECHS-SETGID:%d" % os.getgid(),
+          "X-ECHS-SHELL:%s" % ("/nonexistent/hx-no-such-shell" if "s" in extras else "/bin/sh"), "LOCATION:%s" % d,
           "X-ECHS-UMASK:%s" % ("027" if "w" in extras else "022"),
           "X-ECHS-MAIL-OUT:%d" % mo, "X-ECHS-MAIL-ERR:%d" % me]
     if so:
@@ -98,6 +99,13 @@ def run_case(exe, base, idx, cfg, chunks, ending, extras):
 def judge(cfg, chunks, ending, extras, res, d):
     """property-level verdict on one run; returns (why or None, canonical observation line)"""
     so, se, same, mo, me = cfg
+    if "s" in extras:
+        # the requested shell does not exist: the command cannot be run, and the record must not say it ran and succeeded
+        j = res["journal"]
+        if "X-EXIT-STATUS:0\n" in j:
+            return ("the requested shell does not exist and the job never ran, the journal records X-EXIT-STATUS:0",
+                    "ofile=- efile=- mail=-")
+        return None, "ofile=- efile=- mail=-"
     tot_o = sum(n for s, n in chunks if s == "o")
     tot_e = sum(n for s, n in chunks if s == "e")
     obs = {}
@@ -194,6 +202,9 @@ def run(ctx):
             continue
         for ending in endings:
             cases.append((cfg, sizes[0], ending, ""))
+    # a shell that cannot be spawned: one case per mail/file plan family
+    for cfg in (cfgs if thorough else cfgs[::5]):
+        cases.append((cfg, sizes[0], "x0", "s"))
     before = set(glob.glob("/tmp/echs????????"))
     base = tempfile.mkdtemp(prefix="hxexec-", dir=os.environ.get("TMPDIR", "/tmp"))
     results = [None] * len(cases)
@@ -211,6 +222,11 @@ def run(ctx):
     for i, ((cfg, chunks, ending, extras), res) in enumerate(zip(cases, results)):
         d = os.path.join(base, "c%d" % i)
         why, obsline = judge(cfg, chunks, ending, extras, res, d)
+        if "s" in extras:
+            # nothing runs, nothing is routed: judged above, no plan to compare with
+            if why:
+                fails.append((len(lines), "OFILE=%d EFILE=%d same=%d MAIL-OUT=%d MAIL-ERR=%d: %s" % (cfg + (why,))))
+            continue
         lines.append("x.run %d %d %d %d %d | %s" % (cfg + (" ".join("%s%d" % c for c in chunks),)))
         impl.append(obsline)
         if why:
@@ -238,6 +254,7 @@ def run(ctx):
                         "interleaving across stdout and stderr in a shared sink is not compared, only each stream's order"]
     if fails:
         i, why = fails[0]
+        i = min(i, len(lines) - 1)
         ctx.violation("property", why, {"op": lines[i], "impl": impl[i], "model": model[i], "failures_total": len(fails),
                                         "more": [w for _, w in fails[1:5]]})
     elif corr:
